@@ -122,7 +122,11 @@ def run_case(cls, reach, cfg, bs, val_int, over, under):
     if getattr(cls, "_verif_bad_probed", False):
         return out
     cls._verif_bad_probed = True      # the rejected values depend on the configuration only: once per class
-    for bad in (over, under, 1.5, None, "1", b"\x01"):
+    # ... and non-integers that compare EQUAL to the value this very field has just encoded (a float from a true division,
+    # a Fraction): equal to an integer is not an integer
+    import fractions
+    same = [fractions.Fraction(val_int)] + ([float(val_int)] if abs(val_int) < 2 ** 53 else [])
+    for bad in (over, under, 1.5, None, "1", b"\x01") + tuple(same):
         if bad is None and reach == "opt":
             continue                  # None is the legitimate "absent" value of an optional field
         try:
